@@ -26,23 +26,43 @@ PROP = 'C04'
 ASSUMPTIONS = [
     'host keys, CA keys, X.509 certificates and subject patterns are opaque values; == on the opaque sort is '
     'SSHKey.__eq__ (equality of public_data) and hashing is consistent with it',
-    'decode_ssh_certificate / decode_ssh_public_key are deterministic functions of the key blob (a certificate whose '
-    'CA signature does not verify is rejected by the decoder with KeyImportError: SSHOpenSSHCertificate.construct)',
+    'inside _validate_host_key the decoders decode_ssh_certificate / decode_ssh_public_key are deterministic '
+    'abstractions of the key blob (they may also raise ValueError for malformed key parameters: fail-safe, becomes '
+    'HostKeyNotVerifiable).  That an OpenSSH certificate object exists only if its CA signature verified - over exactly '
+    'the to-be-signed bytes, with the CA key embedded in the certificate - and that its fields are the signed ones is '
+    'NOT assumed: SSHOpenSSHCertificate.construct and decode_ssh_certificate are under contract (the Specs written for '
+    'C16, adopted here and discharged by ./check C04 too); what remains assumed is the primitive (unforgeability)',
     'the application callbacks validate_host_public_key / validate_host_ca_key are oracles (uninterpreted '
     'predicates of their arguments) returning a bool',
     'X.509 certificate chains are outside the property text: _validate_x509_host_certificate_chain is an assumed '
     'contract (returns a key or raises ValueError); only its call site is checked',
     '"now" is a ghost input (ghost_now): the one reading of time.time() made by SSHOpenSSHCertificate.validate',
-    'ip_address() and host-pattern .matches() are deterministic functions of their arguments',
-    'writers of the trust sets covered: _match_known_hosts and the known_hosts statement of _connection_made '
-    '(None exactly when known_hosts is None); __init__ (empty, not None sets) is the precondition of _connection_made '
-    'and is not itself under contract; the rest of _connection_made (keysign keys, algorithm lists) is not analysed',
-    'match_known_hosts() (the module-level dispatcher over file names / bytes / SSHKnownHosts objects / callables) is an '
-    'assumed deterministic function of (known_hosts, host, addr, port); SSHKnownHosts.match/_match, which it calls for '
-    'known_hosts files, are proved separately; load() (parsing of the file) is not under contract',
+    'inside SSHKnownHosts._match, ip_address() and pattern .matches() are deterministic functions of their arguments '
+    '(pattern_matches); what .matches computes for plain / wildcard / negated / CIDR / hashed patterns is proved by '
+    'the C17 Specs adopted here (_PlainHost, _HashedHost, HostPatternList, _PatternList, Wildcard*/CIDRHostPattern), '
+    'and which (marker, key) is stored under which pattern by load / _add_exact / _add_pattern likewise; the link is by '
+    'identification (see the C17 layering note below), not a solver step',
+    'writers of the trust sets covered: _match_known_hosts (each set is REPLACED by what the matcher returned for this '
+    'host/addr/port) and the known_hosts statement of _connection_made (None exactly when known_hosts is None); '
+    '__init__ (not-None sets) is the precondition of _connection_made and is not itself under contract.  Only that '
+    'statement of _connection_made is analysed (region): the lines before it, which set _host/_port from the peer name '
+    'when no host was given, and the lines after it (keysign keys, algorithm lists) are not; the AST scans '
+    'C04.scan#frame(...) check that the trust sets and the selecting fields (_host, _port, _peer_addr, '
+    '_host_key_alias, _known_hosts) have no other writers and are not written at/after that statement',
+    'inside _match_known_hosts the module-level match_known_hosts() is a deterministic abstraction of (known_hosts, '
+    'host, addr, port).  match_known_hosts itself is under contract for the SSHKnownHosts-object, file-name and bytes '
+    'forms (exactly one SSHKnownHosts.match(host, addr, port) with the same three arguments, answer returned '
+    'unchanged); the callable and tuple-of-lists forms (user-supplied matcher / preloaded keys) and file access '
+    '(read_known_hosts) are not',
     'Python float clock readings are modelled as exact reals',
-    'FINDING (pinned tree): SSHKnownHosts.match drops the revocations found for [host]:port when it falls back to the '
-    'port-less lookup (obligation port-specific-revocations-survive-fallback; notes/findings/c04_port_revocation_lost.py)',
+    '"before any credentials are sent" is not re-proved here; relied-upon contracts: C03 '
+    '_process_reply#post(verified-key-is-the-validated-one-for-the-hashed-blob) and its pre-at-call on send_newkeys '
+    '(send_newkeys_after_verify: NEWKEYS only after validate_server_host_key returned and the signature verified), '
+    'C06 rule A1 (try_next_auth_stub: every call site of try_next_auth already has receive keys).  C03 stubs '
+    'validate_server_host_key with a wider exception set (also KeyImportError) than the contract proved here '
+    '(HostKeyNotVerifiable only): C03 assumes less than C04 proves',
+    'repaired on the way (known_findings.json "fixed"): af06bcd port-specific @revoked lines survive the port fallback '
+    'of SSHKnownHosts.match; 588bddd trusted host keys no longer accumulate across _match_known_hosts calls',
 ]
 
 KEY = 'opaque:Key'
@@ -136,15 +156,22 @@ def opt_set_parts(v):
     """(is None, characteristic array) of an Optional[set]"""
     if v is VNone:
         return z3.BoolVal(True), z3.K(KS, z3.BoolVal(False))
+    if isinstance(v, VSet) and not v.items:
+        return z3.BoolVal(False), z3.K(KS, z3.BoolVal(False))      # set()
     if isinstance(v, VOpt):
         return v.isnone, v.val.z
     return z3.BoolVal(False), v.z
 
 
+def rev_set(v):
+    """characteristic array of a (never None) set value"""
+    return opt_set_parts(v)[1]
+
+
 def key_rule(c, host, addr, port, k):
     """a listed key that is not revoked (or an application override), unless checking is disabled"""
     dis, trusted = opt_set_parts(c.oldv('_trusted_host_keys'))
-    rev = c.old('_revoked_host_keys')
+    rev = rev_set(c.oldv('_revoked_host_keys'))
     return z3.Or(dis, z3.And(z3.Not(z3.Select(rev, k)),
                              z3.Or(z3.Select(trusted, k), cb_key(host, addr, port, k))))
 
@@ -152,7 +179,7 @@ def key_rule(c, host, addr, port, k):
 def ca_rule(c, host, addr, port, sk, ctype, va, vb, now, principals):
     """trusted non-revoked CA, type host, validity window contains now, principals cover the host"""
     dis, trusted = opt_set_parts(c.oldv('_trusted_ca_keys'))
-    rev = c.old('_revoked_host_keys')
+    rev = rev_set(c.oldv('_revoked_host_keys'))
     return z3.Or(dis, z3.And(z3.Not(z3.Select(rev, sk)),
                              z3.Or(z3.Select(trusted, sk), cb_ca(host, addr, port, sk)),
                              cert_ok(z3.IntVal(CERT_TYPE_HOST), ctype, va, vb, now, principals,
@@ -175,7 +202,7 @@ def trust_frame(c):
         n0, a0 = opt_set_parts(c.oldv(f))
         n1, a1 = opt_set_parts(c.newv(f))
         eq += [n0 == n1, z3.Or(n0, a0 == a1)]
-    eq.append(c.old('_revoked_host_keys') == c.new('_revoked_host_keys'))
+    eq.append(rev_set(c.oldv('_revoked_host_keys')) == rev_set(c.newv('_revoked_host_keys')))
     return z3.And(eq)
 
 
@@ -357,26 +384,34 @@ def matched(c, k):
     return matcher[k](*matcher_args(c.argv('known_hosts'), c.argv('host'), c.argv('addr'), c.argv('port')))
 
 
+NO_KEYS = z3.K(KS, z3.BoolVal(False))
+
+
+def keyset(lst):
+    """the set of the keys in a list, as the recursive unfolding {} | {l[0]} | ... (= what set(l) denotes)"""
+    return addall(NO_KEYS, lst, z3.Length(lst))
+
+
 def mkh_loop_inv(c):
+    """the trusted set holds exactly the first i matched keys - nothing from an earlier lookup"""
     i, it = c.extra['i'], c.extra['iter'].z
-    n0, a0 = opt_set_parts(c.ex.get_field(c.loop_entry, c.self_ref, '_trusted_host_keys'))
     n1, a1 = opt_set_parts(c.newv('_trusted_host_keys'))
-    return z3.And(z3.Not(n1), a1 == addall(a0, it, i))
+    return z3.And(z3.Not(n1), a1 == addall(NO_KEYS, it, i))
 
 
 def mkh_loop_lemmas(c):
-    i0, it = c.extra['i0'], c.extra['iter'].z
-    _n0, a0 = opt_set_parts(c.ex.get_field(c.loop_entry, c.self_ref, '_trusted_host_keys'))
-    return addall_instances(a0, it, i0)
+    return addall_instances(NO_KEYS, c.extra['iter'].z, c.extra['i0'])
 
 
 def mkh_post(c):
-    n0, a0 = opt_set_parts(c.oldv('_trusted_host_keys'))
+    """Property: the keys accepted are those the configuration lists *for that host, address and port*: each of the
+    three sets is exactly the corresponding list the matcher returned for THIS (host, addr, port); nothing survives
+    from an earlier lookup on the same connection (server side: one lookup per host-based auth attempt)."""
     n1, a1 = opt_set_parts(c.newv('_trusted_host_keys'))
     nc, ac = opt_set_parts(c.newv('_trusted_ca_keys'))
-    return z3.And(z3.Not(n1), a1 == addall(a0, matched(c, 0), z3.Length(matched(c, 0))),
+    return z3.And(z3.Not(n1), a1 == keyset(matched(c, 0)),
                   z3.Not(nc), ac == set_of_keys(matched(c, 1)),
-                  c.new('_revoked_host_keys') == set_of_keys(matched(c, 2)))
+                  rev_set(c.newv('_revoked_host_keys')) == set_of_keys(matched(c, 2)))
 
 
 MKH_CONN = dict(CONN_TRUST, _trusted_host_key_algs='seq[bytes]',
@@ -685,7 +720,6 @@ def cm_args(c):
 
 def cm_post(c):
     kh_none = c.is_none(c.oldv('_known_hosts'))
-    n0, a0 = opt_set_parts(c.oldv('_trusted_host_keys'))
     n1, a1 = opt_set_parts(c.newv('_trusted_host_keys'))
     nc, ac = opt_set_parts(c.newv('_trusted_ca_keys'))
     a = cm_args(c)
@@ -693,9 +727,9 @@ def cm_post(c):
     return z3.And(
         # checking is disabled exactly when the application said known_hosts=None
         n1 == kh_none, nc == kh_none,
-        z3.Implies(z3.Not(kh_none), z3.And(a1 == addall(a0, m[0], z3.Length(m[0])), ac == set_of_keys(m[1]),
-                                           c.new('_revoked_host_keys') == set_of_keys(m[2]))),
-        z3.Implies(kh_none, c.new('_revoked_host_keys') == c.old('_revoked_host_keys')))
+        z3.Implies(z3.Not(kh_none), z3.And(a1 == keyset(m[0]), ac == set_of_keys(m[1]),
+                                           rev_set(c.newv('_revoked_host_keys')) == set_of_keys(m[2]))),
+        z3.Implies(kh_none, rev_set(c.newv('_revoked_host_keys')) == rev_set(c.oldv('_revoked_host_keys'))))
 
 
 connection_made = Spec(
@@ -714,10 +748,106 @@ connection_made.runtime_class = 'SSHClientConnection'
 connection_made.no_replay = True          # a region of the function cannot be replayed on its own
 
 
+# ---- known_hosts.match_known_hosts : the dispatcher hands the SAME (host, addr, port) to SSHKnownHosts.match -------
+def mkhf_loaded_stub(cx):
+    """read_known_hosts(file names) / import_known_hosts(text): a loaded SSHKnownHosts object (load() is under contract
+    below, file access is not) or a parse error"""
+    return [Out(ret=cx.ex.new_object(cx.st, 'SSHKnownHosts', 'loaded'), event=('loaded', tuple(cx.args))),
+            Out(exc=VExc('ValueError')), Out(exc=VExc('OSError'))]
+
+
+mkhf_loaded_stub.modifies = ()
+
+
+def mkhf_post(kind):
+    def post(c):
+        calls = [x for x in c.calls() if x['key'] == 'known_hosts.match']
+        if len(calls) != 1:
+            return z3.BoolVal(False)
+        call = calls[0]
+        a = call['args']
+        if len(a) != 3 or call.get('kwargs'):
+            return z3.BoolVal(False)
+        # asked about exactly this host, address and port ...
+        conj = [c.eq(a[0], c.argv('host')), c.eq(a[1], c.argv('addr')), c.eq(a[2], c.argv('port'))]
+        # ... of the object given (or of the one loaded from the given file names / bytes) ...
+        if kind == 'obj':
+            conj.append(z3.BoolVal(call['recv'].addr == c.argv('known_hosts').addr))
+        else:
+            ev = c.events('loaded')
+            conj.append(z3.BoolVal(len(ev) == 1 and call['recv'].addr == c.calls()[0]['ret'].addr))
+        # ... and the answer is handed back unchanged
+        res, ret = c.result_v, call['ret']
+        conj += [lseq(c, res.items[k], LIST_T[k]) == lseq(c, ret.items[k], LIST_T[k]) for k in range(7)]
+        return z3.And(*conj)
+    return post
+
+
+def _mk_mkhf(kind, typ):
+    sp = Spec(
+        PROP, 'known_hosts', 'match_known_hosts',
+        params=dict(known_hosts=typ, host='str', addr='str', port='opt[int]'),
+        classes={'SSHKnownHosts': KH_FIELDS},
+        stubs={'known_hosts.match': contract_stub(lambda: kh_match_public),
+               'read_known_hosts': mkhf_loaded_stub, 'import_known_hosts': mkhf_loaded_stub},
+        loops={1: LoopSpec(invariant=lambda c: z3.BoolVal(True))},
+        ensures=[('same-host-addr-port-handed-to-match-and-its-answer-returned', mkhf_post(kind))],
+        raises={'ValueError': True, 'AssertionError': True, 'OSError': True, 'UnicodeDecodeError': True},
+        cases=[(kind, {})],          # only names the obligations after the argument form
+        returns=RESULT_T)
+    sp.opaque_attrs = {('X509Cert', 'is_x509'): 'bool'}
+    sp.no_replay = True       # polymorphic argument: one Spec per documented form (object / file name / bytes)
+    return sp
+
+
+match_known_hosts_obj = _mk_mkhf('obj', 'obj:SSHKnownHosts')
+match_known_hosts_file = _mk_mkhf('file', 'str')
+match_known_hosts_bytes = _mk_mkhf('bytes', 'bytes')
+
+
+# ---- producers of the facts the decisions rely on, adopted from the sidecars that own them ----------------------
+# The Specs are the ones written for C16 (certificate decoding: CA signature check) and C17 (known_hosts parsing and
+# host pattern matching).  They are re-registered under C04, so ./check C04 generates and discharges their obligations
+# from the current source as well (a change that breaks them is a C04 violation too).
+def _adopt(modname, want):
+    import copy
+    import importlib
+    import sys
+    sys.modules.pop(modname, None)          # re-execute: the registry was cleared by the driver
+    before = len(Spec.registry)
+    mod = importlib.import_module(modname)
+    own = [sp for sp in Spec.registry[before:] if sp.prop != PROP]
+    out = []
+    for sp in own:
+        if want(sp):
+            cl = copy.copy(sp)
+            cl.prop = PROP
+            Spec.registry.append(cl)
+            out.append(cl)
+    return mod, out
+
+
+_c16, ADOPTED_C16 = _adopt('contracts.c16', lambda sp: sp.qualname in (
+    'SSHOpenSSHCertificate.construct', 'decode_ssh_certificate'))
+_c17, ADOPTED_C17 = _adopt('contracts.c17', lambda sp: (
+    sp.module == 'pattern' or (sp.module == 'known_hosts' and sp.qualname not in (
+        'SSHKnownHosts._match', 'SSHKnownHosts.match'))))
+ASSUMPTIONS += [a for a in getattr(_c17, 'ASSUMPTIONS', []) if 'layering by identification' in a or
+                'recursive spec functions (pos/neg' in a]
+ASSUMPTIONS += [a for a in getattr(_c16, 'ASSUMPTIONS', []) if 'signature primitives' in a or
+                'registered OpenSSH certificate classes' in a]
+
+
 # ---- extra checks: frame scan over the whole package + a native purity test of the lookup -----------------------
 TRUST_FIELDS = ('_trusted_host_keys', '_trusted_ca_keys', '_revoked_host_keys')
 TRUST_WRITERS = {('SSHConnection', '__init__'), ('SSHConnection', '_match_known_hosts'),
                  ('SSHClientConnection', '_connection_made')}
+# the fields that select WHICH host the sets are computed for (cm_post) and decided for (validate_server_host_key):
+# written only while the connection is set up, i.e. before the known_hosts statement of _connection_made
+SELECT_FIELDS = ('_host', '_port', '_peer_addr', '_host_key_alias', '_known_hosts')
+SELECT_WRITERS = {('SSHConnection', '__init__'), ('SSHClientConnection', '__init__'),
+                  ('SSHConnection', 'connection_made'), ('SSHClientConnection', '_connection_made')}
+SELECT_CLASSES = ('SSHConnection', 'SSHClientConnection')
 KH_STORE = ('_exact_entries', '_pattern_entries')
 KH_WRITERS = {('SSHKnownHosts', '__init__'), ('SSHKnownHosts', '_add_exact'), ('SSHKnownHosts', '_add_pattern')}
 MUTATORS = ('add', 'update', 'clear', 'discard', 'remove', 'pop', 'append', 'extend', 'insert', 'setdefault',
@@ -765,11 +895,31 @@ def extra_checks(tier, seed):
                         attrs += [a for a in ast.walk(n.func.value) if isinstance(a, ast.Attribute)]
                     for a in attrs:
                         if (a.attr in TRUST_FIELDS and where not in TRUST_WRITERS) or \
-                                (a.attr in KH_STORE and where not in KH_WRITERS):
+                                (a.attr in KH_STORE and where not in KH_WRITERS) or \
+                                (a.attr in SELECT_FIELDS and cls.name in SELECT_CLASSES and where not in SELECT_WRITERS):
                             stray.append(f'{os.path.basename(path)}:{n.lineno} {cls.name}.{fn.name} writes {a.attr}')
     lemmas = [{'name': f'{PROP}.scan#frame(writers-of-trust-sets-and-known-hosts-store-are-the-listed-ones)',
                'verdict': 'proved' if not stray else 'refuted', 'detail': stray[:10], 'backend': 'AST scan',
                'replayed': True}]
+    # in _connection_made the selecting fields may only be written BEFORE the analysed known_hosts statement
+    cm = extract.get_module('connection').get_function('SSHClientConnection._connection_made')
+    region = _known_hosts_region(cm)[0]
+    late = [f'connection.py:{n.lineno} _connection_made writes {a.attr} at/after the known_hosts statement'
+            for st_ in cm.body if st_.lineno > region.lineno for n in ast.walk(st_)
+            if isinstance(n, (ast.Assign, ast.AugAssign, ast.AnnAssign))
+            for t in (n.targets if isinstance(n, ast.Assign) else [n.target]) for a in ast.walk(t)
+            if isinstance(a, ast.Attribute) and a.attr in SELECT_FIELDS + TRUST_FIELDS]
+    late += [f'connection.py:{n.lineno} _connection_made writes {a.attr} inside the known_hosts statement'
+             for n in ast.walk(region) if isinstance(n, (ast.Assign, ast.AugAssign, ast.AnnAssign))
+             for t in (n.targets if isinstance(n, ast.Assign) else [n.target]) for a in ast.walk(t)
+             if isinstance(a, ast.Attribute) and a.attr in SELECT_FIELDS and a.attr != '_known_hosts']
+    lemmas.append({'name': f'{PROP}.scan#frame(host-port-addr-alias-fixed-once-the-trust-sets-are-computed)',
+                   'verdict': 'proved' if not late else 'refuted', 'detail': late[:10], 'backend': 'AST scan',
+                   'replayed': True})
+    # prefix facts instantiated by the adopted C17 loop invariants: proved once for arbitrary s, i
+    for name, goal in _c17.F.generic_prefix_lemmas():
+        v, why = _c17._prove(goal)
+        lemmas.append({'name': f'{PROP}.lemma#{name}', 'verdict': v, 'reason': why})
     bounded = []
     try:
         env = dict(os.environ, PYTHONPATH=extract.REPO)
